@@ -16,8 +16,10 @@ Definition bsl : byte := x5c.
 
 (* the printer's string escape *)
 Definition esc1 (c : byte) : str :=
-  if Byte.eqb c dq then [bsl; dq] else if Byte.eqb c bsl then [bsl; bsl] else [c].
+  if Byte.eqb c dq then [bsl; dq] else if Byte.eqb c bsl then [bsl; bsl] else if Byte.eqb c x24 then [bsl; x24] else [c].
 Definition escape (s : str) : str := flat_map esc1 s.
+(* cfg_print_quoted: NULL prints as "" *)
+Definition quoted (s : option str) : str := dq :: escape (match s with Some t => cstr t | None => [] end) ++ [dq].
 
 (* cfg_opt_nprint_var(opt, index, fp): getters fall back to 0 / NULL / false when the slot is missing *)
 Definition nprint_var (o : opt) (index : nat) : str :=
@@ -25,7 +27,7 @@ Definition nprint_var (o : opt) (index : nat) : str :=
   match o_kind o with
   | KInt => print_Z (match v with Some (VInt z) => z | _ => 0%Z end)
   | KFloat => fmt_f (match v with Some (VFloat b) => b | _ => 0%N end)
-  | KStr => dq :: escape (cstr (match v with Some (VStr (Some s)) => s | _ => [] end)) ++ [dq]
+  | KStr => quoted (match v with Some (VStr s) => s | _ => None end)
   | KBool => M (if match v with Some (VBool b) => b | _ => false end then "true" else "false")
   | _ => []
   end.
@@ -76,7 +78,7 @@ with print_opt (o : opt) (pff : option (list str)) (indent : nat) {struct o} : s
                   | VSec (Some s) =>
                       indent_str indent ++
                       (if has flags CFGF_TITLE
-                       then cstr name ++ M " """ ++ (match c_title s with Some t => cstr t | None => M "(null)" end) ++ M """ {" ++ [nl]
+                       then cstr name ++ M " " ++ quoted (c_title s) ++ M " {" ++ [nl]
                        else cstr name ++ M " {" ++ [nl]) ++
                       print_cfg s pff (S indent) ++ indent_str indent ++ M "}" ++ [nl]
                   | _ => []          (* a NULL section would crash cfg_print_pff_indent *)
